@@ -44,8 +44,13 @@ PROPS = {
         nt_floor=0.2,
     ),
     "C01": dict(
-        stages=[dict(test="TestC01", quick=(16, 40), thorough=(16, 2500), timeout=dict(quick=600, thorough=3300))],
-        rule="case = validator set (3-7, some inactive), expiration 1..6|20, max report size, and a list of 15-60 late-bound ops "
+        stages=[dict(test="TestC01", quick=(16, 40), thorough=(16, 2500), timeout=dict(quick=600, thorough=3300)),
+                dict(test="TestC01IBC", pkg="c01ibc", quick=(8, 40), thorough=(16, 1500), timeout=dict(quick=600, thorough=3300))],
+        rule="IBC: two real band apps joined by an oracle channel (ibc-go testing framework made deterministic), 1-3 requests arriving as IBC packets "
+             "(ask 1..n, min 1..ask; fewer than min / exactly min / more than min reports in the block of the min-th / late reports; sequential or interleaved; "
+             "expiration 3-12 blocks), every block of the band side observed: exactly one response packet per request, sent in the block the model resolves it, whose "
+             "client id, ans_count, request/resolve time, status and result equal the model, the stored Result and the stored packet commitment; non-trivial = a response "
+             "with ans_count != min_count. Main: case = validator set (3-7, some inactive), expiration 1..6|20, max report size, and a list of 15-60 late-bound ops "
              "(request / report variants exact|missing|extra|wrong|oversize|exit|empty|adjacent or non-adjacent duplicate id|reordered ids (3-raw-request script) / burst of reports / end block / activate / owner or foreign edits of an oracle script or data source that keep its behaviour) "
              "run on the real app; non-trivial = >=1 request resolved by reports AND >=1 of {rejected report, report accepted "
              "after resolve, report in the expiry block, EXPIRED result, two requests resolved in one block}; distinct = hash of case JSON",
